@@ -2294,11 +2294,13 @@ func (n *normalizer) bodyText(fd *ast.FuncDecl, mode string, temps []string, res
 		} else {
 			fv := fmt.Sprintf("%sd%df", label, ndefer)
 			out = append(out, &ast.AssignStmt{Lhs: []ast.Expr{ast.NewIdent(fv)}, Tok: token.DEFINE, Rhs: []ast.Expr{fun}})
+			out = append(out, &ast.AssignStmt{Lhs: []ast.Expr{ast.NewIdent("_")}, Tok: token.ASSIGN, Rhs: []ast.Expr{ast.NewIdent(fv)}})
 			call.Fun = ast.NewIdent(fv)
 		}
 		for i, a := range d.Call.Args {
 			av := fmt.Sprintf("%sd%da%d", label, ndefer, i)
 			out = append(out, &ast.AssignStmt{Lhs: []ast.Expr{ast.NewIdent(av)}, Tok: token.DEFINE, Rhs: []ast.Expr{a}})
+			out = append(out, &ast.AssignStmt{Lhs: []ast.Expr{ast.NewIdent("_")}, Tok: token.ASSIGN, Rhs: []ast.Expr{ast.NewIdent(av)}})
 			call.Args = append(call.Args, ast.NewIdent(av))
 		}
 		if d.Call.Ellipsis.IsValid() && len(call.Args) > 0 {
@@ -2363,7 +2365,7 @@ func (n *normalizer) bodyText(fd *ast.FuncDecl, mode string, temps []string, res
 			}
 			repl = append(repl, runDefers()...)
 			if th != nil && th.whole != nil {
-				repl = append(repl, specialiseIf(th, ret, boolRet[ret])...)
+				repl = append(repl, specialiseIf(th, ret, boolRet[ret], len(active) > 0)...)
 			} else if th != nil && !nilRet[ret] {
 				repl = append(repl, &ast.IfStmt{
 					Cond: &ast.BinaryExpr{X: ast.NewIdent(th.cond), Op: token.NEQ, Y: ast.NewIdent("nil")},
@@ -3125,10 +3127,13 @@ func packetReadLike(fn *types.Func) bool {
 
 // specialiseIf: the continuation `if t {A} else {B}` / `if !t {A} else {B}` at a return whose value for t is known to be
 // a constant (only the branch taken remains) or a comparison (tested directly, negated if need be).
-func specialiseIf(th *threadSpec, ret *ast.ReturnStmt, known int) []ast.Stmt {
+func specialiseIf(th *threadSpec, ret *ast.ReturnStmt, known int, deferredRan bool) []ast.Stmt {
 	whole := th.whole
 	if th.boolIdx < 0 || th.boolIdx >= len(ret.Results) {
 		return []ast.Stmt{whole}
+	}
+	if known == 0 && deferredRan {
+		return []ast.Stmt{whole} // deferred calls of the callee run between the evaluation of the result and the test
 	}
 	if known != 0 {
 		taken := (known == 1) != th.boolNeg
@@ -3185,15 +3190,13 @@ func specialiseIf(th *threadSpec, ret *ast.ReturnStmt, known int) []ast.Stmt {
 	return []ast.Stmt{&ast.IfStmt{Cond: &ast.BinaryExpr{X: be.X, Op: op, Y: be.Y}, Body: whole.Body, Else: whole.Else}}
 }
 
+// syntacticallyPure: evaluating e a second time, right after the first, gives the same value: names and literals only (a
+// field or pointer read could see a store made in between by a deferred call of the callee).
 func syntacticallyPure(e ast.Expr) bool {
 	switch x := e.(type) {
 	case *ast.Ident, *ast.BasicLit:
 		return true
 	case *ast.ParenExpr:
-		return syntacticallyPure(x.X)
-	case *ast.SelectorExpr:
-		return syntacticallyPure(x.X)
-	case *ast.StarExpr:
 		return syntacticallyPure(x.X)
 	}
 	return false
